@@ -32,7 +32,7 @@ PROPS = {
     "C12": {
         "lean": ["AriVerif.Props.C12"],
         "gen": ["KeepAlive"],
-        "streams": [s_keepalive.stream],
+        "streams": [s_keepalive.stream, s_sender.stream_e2e],
         "trusted": [KERNEL, HARNESS, "harness/extract.py (Python-subset -> Lean translator) for Gen/KeepAlive.lean, "
                     "mitigated by the grid differential of the generated definitions against the real method",
                     "modelled, not verified: float arithmetic of CPython (the model is exact over Rat; the grid uses "
@@ -129,7 +129,7 @@ PROPS = {
     "C13": {
         "lean": ["AriVerif.Props.C13"],
         "gen": ["KeepAlive"],
-        "streams": [s_sender.stream],
+        "streams": [s_sender.stream, s_sender.stream_e2e],
         "trusted": [KERNEL, HARNESS, "the scheduler shim (harness/shim.py): its semantics for Lock/RLock, Queue (FIFO, unbounded), Event, Thread, ThreadPoolExecutor (FIFO work queue, <= n running, shutdown waits), socket (recv returns a non-empty prefix, b'' at EOF; sendall all-or-exception), virtual clock; the real code runs unmodified, module attributes are patched from the harness",
                     "real timers and scheduling latency are not modelled: bounds are exact in virtual time only"],
         "assumptions": ["an interval change takes effect at the writer's next wait (as at init, where the init reply is enqueued at the same instant)",
